@@ -4,6 +4,8 @@
 For each /verif/benign/<name>/patch.diff: the repository's own suite must pass with the patch, then
 all 18 quick checks are run; any exit code other than 0 is a false alarm (1) or a machinery failure (2)
 of the framework on code where the properties hold.  Outcome in /verif/benign/<name>/result.json."""
+import json, os as _os0
+_os0.environ.setdefault('VERIF_FROM_HEAD', '1')
 import json, os, subprocess, sys, glob, concurrent.futures, threading, re
 slots = 4; props = [f'C{i:02d}' for i in range(1, 19)]; match = ''
 for i, a in enumerate(sys.argv):
